@@ -3446,6 +3446,52 @@ theorem ireach_get_exact {H : Hashes} (hH : HashOk H) {m0 : SegMap V} (inv0 : Se
   have hi := segOf_lt hH inv k
   exact ⟨get_eq_abs hH.idx (inv.segs _ hi) k, has_eq_abs hH.idx (inv.segs _ hi) k⟩
 
+
+/-! ### limiter store histories (every method is one critical section of the single lock) -/
+
+inductive LimOp where
+  | get (k now : Nat) (first : Option Nat)
+  | cleanup (cutoff : Nat)
+
+def limStep (s : Lim) : LimOp → Lim
+  | .get k now first => s.get k now first
+  | .cleanup c => s.cleanup c
+
+/-- the iteration witness of an op is admissible in state `s` -/
+def LimOp.ok (s : Lim) : LimOp → Prop
+  | .get _ _ first => 1000 < s.ents.length → ∃ w, first = some w ∧ w ∈ s.keys
+  | .cleanup _ => True
+
+def limRun : Lim → List LimOp → Prop
+  | _, [] => True
+  | s, op :: ops => op.ok s ∧ limRun (limStep s op) ops
+
+theorem lim_cleanup_maxSize (s : Lim) (c : Nat) : (s.cleanup c).maxSize = s.maxSize := rfl
+
+theorem lim_history (ops : List LimOp) : ∀ (s : Lim), LimInv s → limRun s ops →
+    LimInv (ops.foldl limStep s) ∧ (ops.foldl limStep s).maxSize = s.maxSize := by
+  induction ops with
+  | nil => intro s inv _; exact ⟨inv, rfl⟩
+  | cons op ops ih =>
+    intro s inv hrun
+    obtain ⟨hok, hrest⟩ := hrun
+    cases op with
+    | get k now first =>
+      obtain ⟨h1, _, h3, _⟩ := lim_get_spec s k now first inv hok
+      obtain ⟨i1, i2⟩ := ih _ h1 hrest
+      exact ⟨i1, i2.trans h3⟩
+    | cleanup c =>
+      obtain ⟨h1, _⟩ := lim_cleanup_spec s c inv
+      obtain ⟨i1, i2⟩ := ih _ h1 hrest
+      exact ⟨i1, i2.trans rfl⟩
+
+/-- a key looked up at `now` survives every Cleanup whose cutoff is not later than `now` -/
+theorem cleanup_keeps_fresh (s : Lim) (k now cutoff : Nat) (first : Option Nat) (inv : LimInv s)
+    (hfirst : 1000 < s.ents.length → ∃ w, first = some w ∧ w ∈ s.keys) (h : cutoff ≤ now) :
+    (k, now) ∈ ((s.get k now first).cleanup cutoff).ents := by
+  obtain ⟨h1, h2, _, _⟩ := lim_get_spec s k now first inv hfirst
+  exact ((lim_cleanup_spec _ cutoff h1).2 (k, now)).mpr ⟨h2, h⟩
+
 /-! ### the real mixers are admissible instances -/
 
 theorem realIdx_ok : IdxOk realIdx := fun n _ hn => Nat.mod_lt _ hn
